@@ -19,6 +19,8 @@ def main():
         # any type with expected ones (a wrong type is a finding to report, not a reason to crash the harness)
         import warnings
         warnings.filterwarnings('ignore', category=BytesWarning, module=r'vf(\.|$)')
+        # Hypothesis keeps generated choices (ints and bytes) as keys of one dict: equal hashes make it compare bytes with int
+        warnings.filterwarnings('ignore', category=BytesWarning, module=r'hypothesis(\.|$)')
     seed = int(os.environ.get('VERIF_SEED', '1') or '1')
     from vf import core
     modname = 'vf.checks.%s' % a.prop.lower()
